@@ -298,6 +298,9 @@ type bodyGen struct {
 	// violate: the first top-level field that carries a validator gets a value violating it
 	violate  bool
 	violated string
+	// elemTurn: while set, the struct being rendered is the chosen element of a top-level slice (its fields
+	// count as top-level for violate)
+	elemTurn bool
 }
 
 func (g *bodyGen) findStruct(t projgen.TypeRef) *projgen.Struct {
@@ -399,9 +402,18 @@ func (g *bodyGen) valueJSON(t projgen.TypeRef, validate string, depth int) strin
 		if depth >= 3 {
 			n = 0
 		}
+		victim := -1
+		if g.violate && depth == 0 && g.violated == "" && et.Kind == "struct" {
+			// one element of a top-level slice of structs is to violate a field validator
+			n = g.r.Range(1, 3)
+			victim = g.r.Intn(n)
+		}
 		parts := make([]string, n)
 		for i := range parts {
+			prev := g.elemTurn
+			g.elemTurn = i == victim
 			parts[i] = g.valueJSON(et, "", depth+1)
+			g.elemTurn = prev
 		}
 		return "[" + strings.Join(parts, ",") + "]"
 	}
@@ -444,7 +456,7 @@ func (g *bodyGen) valueJSON(t projgen.TypeRef, validate string, depth int) strin
 					continue
 				}
 			}
-			if g.violate && g.violated == "" && depth == 0 && f.Validate != "" && !ft.Slice && !ft.Ptr && (ft.Kind == "prim" || ft.Kind == "alias") {
+			if g.violate && g.violated == "" && (depth == 0 || (depth == 1 && g.elemTurn)) && f.Validate != "" && !ft.Slice && !ft.Ptr && (ft.Kind == "prim" || ft.Kind == "alias") {
 				if bad, ok := violatingField(f.Validate, ft.Prim); ok {
 					g.violated = f.JSON
 					parts = append(parts, strconv.Quote(f.JSON)+":"+bad)
@@ -469,7 +481,7 @@ func typeString(t projgen.TypeRef) string {
 	if t.Kind == "prim" {
 		return s + t.Prim
 	}
-	return s + t.Pkg + "." + t.Name
+	return s + projgen.PkgName(t.Pkg) + "." + t.Name
 }
 
 func fmtArg(t projgen.TypeRef, canon string) string { return fmt.Sprintf("%s=%s", typeString(t), canon) }
